@@ -39,6 +39,7 @@ type Clause struct {
 	File   string
 	LineNo int
 	After  string // for assert clauses: the local variable after whose definition the assertion is placed
+	Patterns []string // for preserves clauses: memory key patterns
 }
 
 type Modifies struct {
@@ -69,6 +70,7 @@ type Contract struct {
 	Allocs   []string // names of fresh object ids the callee may allocate (usable in ensures / modifies)
 	Resets   []ResetSpec
 	Retains  []string
+	Preserves []*Clause
 	Mods     []Modifies
 	Lets     []LetDef
 	Trusted  bool
@@ -88,7 +90,8 @@ type ResetSpec struct {
 	Tags  []string
 }
 
-var reResets = regexp.MustCompile(`^resets(\[[A-Za-z0-9!, ]*\])?\s+([A-Za-z_][A-Za-z0-9_]*)\s*$`)
+var rePreserves = regexp.MustCompile(`^preserves(\[[A-Za-z0-9!, ]*\])?\s+(.*)$`)
+var reResets =regexp.MustCompile(`^resets(\[[A-Za-z0-9!, ]*\])?\s+([A-Za-z_][A-Za-z0-9_]*)\s*$`)
 var reAssertSel =regexp.MustCompile(`^assert(\[[A-Za-z0-9!, ]*\])?\s+at\s+select\s+(\d+)\s*:\s*(.*)$`)
 var reLoop = regexp.MustCompile(`^loop\s+(\d+)\s+(invariant|modifies|decreases)(\[[A-Za-z0-9!, ]*\])?\s+(.*)$`)
 
@@ -365,6 +368,26 @@ func (cs *ContractSet) loadFile(path string, ext bool) error {
 		case body == "wrapping":
 			cur.Wrapping = true
 			lastText = nil
+		case rePreserves.MatchString(body):
+			// preserves[tags] cond : pattern, pattern   when cond holds on return (post state, old()
+			// allowed), every memory matching the patterns equals its value at entry
+			m := rePreserves.FindStringSubmatch(body)
+			i := strings.LastIndex(m[2], ":")
+			if i < 0 {
+				return fmt.Errorf("%s:%d: preserves needs 'cond : patterns'", path, lineNo)
+			}
+			pc := &Clause{Kind: "preserves", Tags: parseTags(m[1]), Text: strings.TrimSpace(m[2][:i]), File: path, LineNo: lineNo}
+			for _, k := range strings.Split(m[2][i+1:], ",") {
+				k = strings.TrimSpace(k)
+				if strings.HasPrefix(k, "@") {
+					pc.Patterns = append(pc.Patterns, cs.Groups[k[1:]]...)
+				} else if k != "" {
+					pc.Patterns = append(pc.Patterns, k)
+				}
+			}
+			pc.Ord = len(cur.Preserves) + 1
+			cur.Preserves = append(cur.Preserves, pc)
+			lastText = nil
 		case reResets.MatchString(body):
 			// resets[C18] p            every field of *p equals its zero value on return, except:
 			// retains p.path  reason   fields deliberately kept (capacity, drained queues, ...)
@@ -456,7 +479,7 @@ func (cs *ContractSet) finish() error {
 		m.E = e
 	}
 	for _, c := range cs.M {
-		all := [][]*Clause{c.Requires, c.Ensures, c.Canaries, c.Invs, c.Asserts}
+		all := [][]*Clause{c.Requires, c.Ensures, c.Canaries, c.Invs, c.Asserts, c.Preserves}
 		for _, l := range all {
 			for _, cl := range l {
 				e, err := parseExpr(cl.Text)
